@@ -1650,9 +1650,12 @@ def simp_test_signext_inf(expr_s, expr):
     if -(1 << (base.size - 1)) <= tmp < (1 << (base.size - 1)):
         # Can trunc integer
         return ExprOp(expr.op, base, expr_s(cst[:base.size]))
-    if (tmp >= (1 << (base.size - 1)) or
-        tmp < -(1 << (base.size - 1)) ):
+    if tmp >= (1 << (base.size - 1)):
+        # A.signExt() is always lower than int
         return ExprInt(1, 1)
+    if tmp < -(1 << (base.size - 1)):
+        # A.signExt() is always greater than int
+        return ExprInt(0, 1)
     return expr
 
 
